@@ -539,6 +539,12 @@ class RefCodec:
                 return None
             return ("some", self.value(t.elem, env, depth + 1))
         if k == "dict":
+            if t.elem.kind in ("prim", "boxedprim", "nat", "bool") and r.chance(1, 6):
+                # the smallest non-empty dictionary: one entry whose key and value are both default
+                zk = b"" if t.key == "str" else b"\0\0\0\0"
+                en = t.elem.name.lower() if t.elem.kind in ("prim", "boxedprim") else ""
+                zv = {"int": b"\0" * 4, "long": b"\0" * 8, "float": b"\0" * 4, "double": b"\0" * 8, "string": b""}.get(en, 0 if t.elem.kind == "nat" else False)
+                return [(zk, zv)]
             n = 0 if depth > 3 else r.below(4)
             keys = set()
             out = []
